@@ -617,14 +617,12 @@ class MixedLogReader(object):
 
         @return A reference to this class.
         """
-        self.filter_in_place(key=None, clear_existing=clear_existing)
-
-        # If we have an index file available, reduce the index to the requested criteria.
+        # If we have an index file available, reduce the index to the requested criteria (and continue reading after
+        # the most recent message, as for any other filter).
         if self.index is not None:
-            self.index = self.index.get_time_range(hint='remove_nans')
-            self.filtered_message_types = len(np.unique(self._original_index.type)) != \
-                                          len(np.unique(self.index.type))
+            self.filter_in_place(key=slice(None, None, 'remove_nans'), clear_existing=clear_existing)
         else:
+            self.filter_in_place(key=None, clear_existing=clear_existing)
             self.remove_invalid_p1_time = True
 
         return self
